@@ -21,27 +21,49 @@ def core_other():
     return [('EX', P0), ('AX', P0), ('AF', P0), ('EG', P0), ('AU', P0, P1), ('EW', P0, P1), ('bind', 'x', None, ('EX', X)), ('exists', 'x', None, ('jump', 'x', ('AF', ('and', X, P0)))),
             ('AG', ('EX', ('EF', P0))), ('forall', 'x', None, ('AU', ('not', X), ('EG', P1)))]
 
+def rename_vars(phi, m):
+    op = phi[0]
+    if op == 'var': return ('var', m.get(phi[1], phi[1]))
+    if op in ('true', 'false', 'prop', 'wild'): return phi
+    if op == 'jump': return ('jump', m.get(phi[1], phi[1]), rename_vars(phi[2], m))
+    if op in S.QUANT: return (op, m.get(phi[1], phi[1]), phi[2], rename_vars(phi[3], m))
+    return (op,) + tuple(rename_vars(c, m) for c in phi[1:])
+
+USER_NAMES = {'x': 'y', 'xx': 'z', 'xxx': 'w'}      # user-given names of equal length: only preprocessing tells them apart
+
+def small_binder_formulas():
+    """every binder over every chain of <= 2 fragment unary operators applied to the variable (near-misses of the shortcuts)"""
+    out = []
+    for q in ('bind', 'exists', 'forall'):
+        for chain in [(), ('AG',), ('EF',), ('not',), ('AG', 'EF'), ('EF', 'AG'), ('AG', 'AG'), ('not', 'AG'), ('AG', 'not'), ('EF', 'EF')]:
+            body = X
+            for op in reversed(chain): body = (op, body)
+            out.append((q, 'x', None, body))
+            out.append((q, 'x', None, ('and', body, ('EF', P0))))
+    return out
+
 def run(chk):
     thorough = chk.tier == 'thorough'
     chk.bounds.update({'E-MIR': 'model_check_formula_unsafe_ex and eval_node (steady-state argument = free symbolic set) executed from MIR, n=2, k<=2, all transition systems',
                        'E-UNI': 'model_check_formula_unsafe_ex vs model_check_formula_dirty on instances U2, C2, M2; for formulas outside the fragment the miter is restricted to colours without a steady state'})
-    frag = core_fragment() + [G.random_formula(chk.rng, 3, ['v0', 'v1'], ops_un=FRAG_UN, ops_bin=FRAG_BIN) for _ in range(40 if thorough else 8)]
+    frag = core_fragment() + small_binder_formulas() + [G.random_formula(chk.rng, 3, ['v0', 'v1'], ops_un=FRAG_UN, ops_bin=FRAG_BIN) for _ in range(40 if thorough else 8)]
     other = core_other() + [G.random_formula(chk.rng, 3, ['v0', 'v1']) for _ in range(30 if thorough else 6)]
     other = [f for f in other if not in_fragment(f)]
     # the shortcut '!{x}: AX {x}' is documented as unsupported by the variant and is excluded (it contains AX anyway)
     tasks = []
-    for f in frag[:30 if thorough else 14]:
+    nf = len(core_fragment()) + len(small_binder_formulas())
+    for f in frag[:nf + (30 if thorough else 6)]:
         k = S.quant_depth(f) or 1
         if k > 2: continue
-        # (1) the variant == standard semantics (with self-loops) on the fragment
-        tasks.append({'n': 2, 'k': k, 'c': 0, 'entry': 'unsafe_ex', 'phis': [f], 'self_loops': True})
+        # (1) the variant == standard semantics (with self-loops) on the fragment; the text uses user-given variable names
+        tasks.append({'n': 2, 'k': k, 'c': 0, 'entry': 'unsafe_ex', 'phis': [f], 'texts': [S.show(rename_vars(f, USER_NAMES))], 'self_loops': True})
         # (2) eval_node with two different free symbolic steady-state sets gives the same result
         tasks.append({'n': 2, 'k': k, 'c': 0, 'entry': 'eval_node_steady', 'phis': [f, f], 'equal_pairs': [(0, 1)], 'expect': 'pairs'})
     for f in other[:20 if thorough else 10]:
         k = S.quant_depth(f) or 1
         if k > 2: continue
         # (3) every formula on networks without steady states
-        tasks.append({'n': 2, 'k': k, 'c': 0, 'entry': 'unsafe_ex', 'phis': [f], 'self_loops': True, 'assume_no_steady': True})
+        tasks.append({'n': 2, 'k': k, 'c': 0, 'entry': 'unsafe_ex', 'phis': [f], 'texts': [S.show(rename_vars(f, USER_NAMES))], 'self_loops': True, 'assume_no_steady': True})
     ET.run_tasks(chk, 'C18', tasks, signature='unsafe-ex')
     # ---- E-UNI
     for inst in UC.instances(['U2', 'C2'] + (['M2'] if thorough else [])):
@@ -49,7 +71,7 @@ def run(chk):
             for i in range(0, len(fs), 10):
                 chunk = fs[i:i + 10]
                 k = max(S.quant_depth(f) for f in chunk) or 1
-                sess = UC.Session(inst, k, [{'phis': [f], 'entry': 'unsafe_ex'} for f in chunk] + [{'phis': [f], 'entry': 'formula_dirty'} for f in chunk])
+                sess = UC.Session(inst, k, [{'phis': [], 'formulas': [S.show(rename_vars(f, USER_NAMES))], 'entry': 'unsafe_ex'} for f in chunk] + [{'phis': [f], 'entry': 'formula_dirty'} for f in chunk])
                 dec = sess.dec
                 has_steady = z3.Or(*[z3.And(*[z3.Not(sess.K.trans(i_, s)) for i_ in range(dec.n)]) for s in range(1 << dec.n)])
                 for j, f in enumerate(chunk):
